@@ -154,7 +154,7 @@ def cases(draw):
         th = [k, c, scale, 0.0]
         root = roots_of(fam, th)[0]
     elif fam == 'power':
-        m = float(draw(st.sampled_from([1.5, 2.0, 3.0, 7.0, 20.0, 50.0, 0.5])))
+        m = float(draw(st.sampled_from([1.5, 2.0, 3.0, 7.0, 20.0, 50.0])))
         c = draw(gen.logfloat(-6, 6))
         th = [m, c, scale, 0.0]
         root = roots_of(fam, th)[0]
